@@ -125,7 +125,7 @@ func (e *Enc) refWf(name string, arr T, bound T) {
 	var body string
 	switch ft.Underlying().(type) {
 	case *types.Slice:
-		body = fmt.Sprintf("(and (<= (sptr (select %[1]s r!w)) %[2]s) (<= 0 (slen (select %[1]s r!w))) (<= (slen (select %[1]s r!w)) (scap (select %[1]s r!w))) (<= 0 (soff (select %[1]s r!w))) (<= 0 (sptr (select %[1]s r!w))))", arr.S, bound.S)
+		body = fmt.Sprintf("(and (<= (sptr (select %[1]s r!w)) %[2]s) (<= 0 (slen (select %[1]s r!w))) (<= (slen (select %[1]s r!w)) (scap (select %[1]s r!w))) (<= 0 (soff (select %[1]s r!w))) (<= 0 (sptr (select %[1]s r!w))) (=> (= (sptr (select %[1]s r!w)) 0) (= (scap (select %[1]s r!w)) 0)))", arr.S, bound.S)
 	case *types.Pointer, *types.Map:
 		body = fmt.Sprintf("(and (<= 0 (select %s r!w)) (<= (select %s r!w) %s))", arr.S, arr.S, bound.S)
 	default:
